@@ -383,6 +383,35 @@ pub fn c09(r: &Report) {
 }
 
 pub fn c10(r: &Report) {
+    // which built-in types count as "absent-able": the derived codecs consult only Encode::is_nil / Decode::nil
+    {
+        let sub = "builtin-nilability";
+        r.space(sub, true, "every instantiation of the type table: Decode::nil() is Some exactly for the Option types (so a missing field of any other type is an error), and Encode::is_nil(v) is true exactly for None (so no other value is ever left out)", 1);
+        let table = crate::types::type_table();
+        let mut n = 0u64;
+        let mut ok = 0u64;
+        for e in &table {
+            let optional = matches!(e.shape, refmodel::shape::Shape::Option(_));
+            n += 1;
+            if (e.nil_some)() == optional {
+                ok += 1;
+            } else {
+                r.fail(sub, None, json!({"type": e.name}), format!("Decode::nil() is {} for a type that is {}optional: a field of this type that is missing from the input would {}", if optional { "None" } else { "Some" }, if optional { "" } else { "not " }, if optional { "be an error instead of None" } else { "be accepted instead of reported as a missing value" }));
+            }
+            for v in (e.values)() {
+                n += 1;
+                let none = optional && v.model() == refmodel::NULL;
+                if v.is_nil() == none {
+                    ok += 1;
+                } else {
+                    r.fail(sub, None, json!({"type": e.name, "value": v.debug()}), format!("Encode::is_nil() is {} for this value: a derived encoder would {}", v.is_nil(), if none { "write an absent optional value" } else { "leave a present value out" }));
+                }
+            }
+        }
+        r.add(sub, n, ok);
+        r.outcome(sub, "types and values", n);
+        r.sample(sub, json!({"type": "Vec<u8>", "nil": "None", "is_nil([])": false}));
+    }
     let c = ctx();
     let sub = "version-pairs";
     r.space(
